@@ -70,9 +70,9 @@ def run(model, rep, tier):
         if b is None:
             raise AnalysisError('StarSet.%s: star-partition block not found' % m)
         blocks[m] = b
-    ref = [canon_stmt(s) for s in blocks['generate'].body]
+    ref = [canon_stmt(s) for s in _alpha(blocks['generate'].body)]
     for m in ('__iadd__', 'diffgenerate'):
-        got = [canon_stmt(s) for s in blocks[m].body]
+        got = [canon_stmt(s) for s in _alpha(blocks[m].body)]
         ok = got == ref
         rep.ob('sibling-partition', mod, blocks[m], 'StarSet.%s: partition block equals the one in generate (%d statements)' % (m, len(ref)), ok,
                '' if ok else 'the copies differ: %s' % _first_diff(ref, got), engine='siblings', qual='StarSet.' + m)
@@ -80,7 +80,7 @@ def run(model, rep, tier):
         full = pattern.has(b, 'set([_N_x.g(self.crys, self.chem, _N_g) for _N_g in self.crys.G])', 'expr')
         rep.ob('sibling-partition', mod, b, 'StarSet.%s: orbit of a new representative = its images under every g in self.crys.G' % m, full,
                '' if full else 'the orbit is not generated from the whole group: stars are split', engine='siblings', qual='StarSet.' + m)
-        mem = pattern.has(b, '_N_x in _N_gs', 'expr')
+        mem = pattern.has(b, '_N_x in _N_gs', 'expr') or pattern.has(b, '_N_x not in _N_gs', 'expr')
         rep.ob('sibling-partition', mod, b, 'StarSet.%s: membership in an existing orbit is tested by `state in orbit-set`' % m, mem,
                '' if mem else 'orbit membership test missing', engine='siblings', qual='StarSet.' + m)
     # ---- combines states
@@ -113,7 +113,7 @@ def run(model, rep, tier):
         ok = pattern.has(ci.methods[m], tmpl)
         rep.ob('index-rebuild', mod, ci.methods[m], 'StarSet.%s: index[xi] = si ; indexdict[states[xi]] = (xi, si) for every star' % m, ok,
                '' if ok else 'index lookups are not rebuilt from the stars', engine='flow', qual='StarSet.' + m)
-    ok = pattern.has(ia, 'for _N_xi in _N_star:\n    self.index[_N_xi] = _N_si\n    self.indexdict[self.states[_N_xi]] = (_N_xi, _N_si)')
+    ok = pattern.has(ia, 'for _N_xi in self.stars[_N_si]:\n    self.index[_N_xi] = _N_si\n    self.indexdict[self.states[_N_xi]] = (_N_xi, _N_si)')
     rep.ob('index-rebuild', mod, ia, 'StarSet.__iadd__: new stars are entered in index and indexdict', ok,
            '' if ok else 'new states are missing from the lookups', engine='flow', qual='StarSet.__iadd__')
     ld = ci.methods['loadhdf5']
@@ -143,6 +143,29 @@ def run(model, rep, tier):
     hits = memo.cache_store_dependencies(probe.body[1].body[0], {'_c'})
     if len(hits) != 1 or 'chem' not in hits[0][4] or 'chem' in hits[0][2]:
         raise AnalysisError('memo engine self-check failed on the synthetic module cache')
+
+
+def _alpha(block):
+    """copies of the statements with every name *bound inside the block* renamed v0, v1, ... in order of first binding
+    (depth-first, source order): sibling copies are compared up to the names of their locals."""
+    import copy
+    stmts = [copy.deepcopy(s) for s in block]
+    order = {}
+
+    class Bind(ast.NodeVisitor):
+        def visit_Name(self, n):
+            if isinstance(n.ctx, ast.Store) and n.id not in order:
+                order[n.id] = 'v%d' % len(order)
+
+    class Ren(ast.NodeTransformer):
+        def visit_Name(self, n):
+            if n.id in order:
+                n.id = order[n.id]
+            return n
+
+    for s_ in stmts:
+        Bind().visit(s_)
+    return [Ren().visit(s_) for s_ in stmts]
 
 
 def canon_stmt(st):
